@@ -261,7 +261,8 @@ func (w *world) alphabet(profile string) []letter {
 		}
 		for _, t := range w.runtimeTxs() {
 			switch t.Name {
-			case "submitmsg(a0,fee1,tokens2)", "submitmsg(a1,fee3,tokens0)", "runtime-update(e0,max-in-msgs+1)", "runtime-update(e0,owner->e1)", "runtime-new(e1)", "executor-commit(n0,empty)", "roothash-evidence(a0,empty)":
+			case "submitmsg(a0,fee1,tokens2)", "submitmsg(a1,fee3,tokens0)", "runtime-update(e0,max-in-msgs+1)", "runtime-update(e0,owner->e1)", "runtime-new(e1)", "executor-commit(n0,empty)", "roothash-evidence(a0,empty)",
+				"runtime-update(e0,max nodes per entity 0)", "runtime-update(e0,min pool 200)", "runtime-update(e0,validator-set constraint,max nodes 1)":
 				ls = append(ls, letter{Name: t.Name, Txs: []txT{t}})
 			}
 		}
